@@ -43,6 +43,10 @@ SCORE_VALUES_INVALID = [
     1.0000001,
     -1,
     2,
+    # not in [0,1] either (a hand-written comparison lets NaN through)
+    math.nan,
+    math.inf,
+    -math.inf,
 ]
 
 # (list, field, kind) of number fields in a stored document
@@ -98,6 +102,11 @@ RECORD_LISTS = [
 # reference (a sequence's members, a clip's recording, an annotation's sound
 # event) changes content that C04 says nothing about, and a schema rule of its
 # own may rightly refuse the result
+# the classes whose construction the statement speaks about
+C04_CLASSES = {
+    "ClipEvaluation", "Match", "AnnotationProject", "Clip", "PredictedTag",
+    "SoundEventPrediction", "SequencePrediction",
+}
 C04_SITES = {
     "clip_evaluations.matches", "clip_evaluations.annotations",
     "clip_evaluations.predictions", "clip_annotations.sound_events",
@@ -503,6 +512,13 @@ class InvSim(AoefSim):
         broken = arrangement.spec_is_valid(spec)
         if broken:
             raise HarnessError(f"generator produced an invalid world: {broken[:3]}")
+        if reply.get("title") not in C04_CLASSES:
+            # refused by a class the statement does not speak about (a
+            # stricter Recording, a new rule on sequences): not an input
+            self.record(op, f"construction-refused:{reply.get('title')}")
+            self.trace.append(("world-refused-elsewhere",))
+            self.probes.hit("world:construction-refused")
+            return
         self.record(op, f"raised:{reply.get('exc')}")
         self.trace.append(("world-rejected", reply.get("exc")))
         self.violate(
@@ -587,8 +603,10 @@ class InvSim(AoefSim):
             doc = json.loads(raw.decode("utf-8-sig"))
             closed, broken = doc_verdict(doc)
             broken_anywhere = doc_verdict(doc, reachable_only=False)[1]
-            n_units = len(doc["data"].get("clip_evaluations") or []) + len(
-                doc["data"].get("tasks") or []
+            n_units = max(
+                len(doc["data"].get(name) or [])
+                for name in ("clip_evaluations", "tasks", "clip_predictions",
+                             "clip_annotations")
             )
         except (UnicodeDecodeError, ValueError, KeyError, TypeError, AttributeError):
             doc, closed, broken, n_units = None, False, [("unparseable", "doc")], 0
@@ -690,6 +708,11 @@ class InvSim(AoefSim):
                 b for b in arrangement.spec_is_valid(spec)
                 if not b[1].startswith(target["cls"])
             ]
+            if reply.get("title") not in C04_CLASSES:
+                self.record(op, f"construction-refused:{reply.get('title')}")
+                self.trace.append(("world-refused-elsewhere",))
+                self.probes.hit("world:construction-refused")
+                return
             if not others:
                 self.record(op, f"raised:{reply.get('exc')}")
                 self.violate(
@@ -763,7 +786,8 @@ def mutate(spec, rng, seed_tag):
         "split_match", "consistent_delete", "reorder", "dup_event_ref",
         "swap_event", "swap_event_and_match", "retarget_match",
         "extra_one_sided", "same_match_twice",
-        "number", "clip_times", "task_drop", "task_orphan", "identity",
+        "number", "clip_times", "task_drop", "task_orphan", "task_retarget",
+        "identity",
     ]
     name = rng.choice(ops)
     # half of the time the annotation / prediction record keeps its identifier
@@ -876,6 +900,14 @@ def mutate(spec, rng, seed_tag):
         i = rng.choice(ces)
         e = s["clip_evaluations"][i]
         clip = s["clip_predictions"][e["predictions"]]["clip"]
+        if inplace and len(s["clips"]) >= 2:
+            # the same (live) clip prediction, moved to another clip
+            pred = dict(s["clip_predictions"][e["predictions"]])
+            pred["clip"] = rng.choice(
+                [j for j in range(len(s["clips"])) if j != clip]
+            )
+            s["clip_predictions"][e["predictions"]] = pred
+            return ce_target(i)
         others = [
             j for j, p in enumerate(s["clip_predictions"]) if p["clip"] != clip
         ]
@@ -1064,12 +1096,13 @@ def mutate(spec, rng, seed_tag):
             s["clip_predictions"].append(
                 {"uuid": _new_uuid(rng.getrandbits(40)), "clip": 0, key: [j]}
             )
-            s["roots"]["prediction_set"]["clip_predictions"] = [
+            kind = rng.choice(["prediction_set", "model_run"])
+            s["roots"][kind]["clip_predictions"] = [
                 len(s["clip_predictions"]) - 1
             ]
             return {
                 "spec": s, "operator": f"number:{cls}.score",
-                "root": "prediction_set",
+                "root": kind,
                 "target": {"cls": cls, "index": j},
             }
         pool, pos = field
@@ -1082,10 +1115,11 @@ def mutate(spec, rng, seed_tag):
                 {"uuid": _new_uuid(rng.getrandbits(40)), "clip": 0, key: [j]}
             )
             members = [len(s["clip_predictions"]) - 1]
-        s["roots"]["prediction_set"]["clip_predictions"] = members
+        kind = rng.choice(["prediction_set", "model_run"])
+        s["roots"][kind]["clip_predictions"] = members
         return {
             "spec": s, "operator": "number:PredictedTag.score",
-            "root": "prediction_set",
+            "root": kind,
             "target": {"cls": "PredictedTag", "index": j, "pool": pool, "pos": pos},
         }
     if name == "clip_times" and s["clips"]:
@@ -1110,11 +1144,12 @@ def mutate(spec, rng, seed_tag):
         s["clip_annotations"].append(
             {"uuid": _new_uuid(rng.getrandbits(40)), "clip": j}
         )
-        s["roots"]["annotation_set"]["clip_annotations"] = [
+        kind = rng.choice(["annotation_set", "evaluation_set"])
+        s["roots"][kind]["clip_annotations"] = [
             len(s["clip_annotations"]) - 1
         ]
         return {
-            "spec": s, "operator": f"clip_times:{mode}", "root": "annotation_set",
+            "spec": s, "operator": f"clip_times:{mode}", "root": kind,
             "target": {"cls": "Clip", "index": j},
         }
     if name == "task_drop":
@@ -1126,6 +1161,26 @@ def mutate(spec, rng, seed_tag):
             "spec": s, "operator": name, "root": "annotation_project",
             "target": {"cls": "AnnotationProject"},
         }
+    if name == "task_retarget" and len(s["clips"]) >= 2:
+        # a task (same identifier; with a base world: the live object) is
+        # moved to another clip -- an annotated clip may lose its only task
+        root = s["roots"]["annotation_project"]
+        if not root["tasks"]:
+            return None
+        j = rng.choice(root["tasks"])
+        t = dict(s["tasks"][j])
+        t["clip"] = rng.choice(
+            [c for c in range(len(s["clips"])) if c != t["clip"]]
+        )
+        s["tasks"][j] = t
+        out = {
+            "spec": s, "operator": name, "root": "annotation_project",
+            "target": {"cls": "AnnotationProject"},
+        }
+        if inplace:
+            out["base_spec"] = spec
+            out["operator"] = name + "@inplace"
+        return out
     if name == "task_orphan":
         root = s["roots"]["annotation_project"]
         have = set(root["clip_annotations"])
@@ -1172,6 +1227,7 @@ def draw_run_cfg(rng, focus, tier):
     }
     if not spec_cfg.get("large"):
         spec_cfg.update(sizes)
+    spec_cfg["plain_recordings"] = True
     # repeated references only in the lists the statement speaks about
     spec_cfg["dup_fields"] = [["clip_annotations", "sound_events"],
                               ["clip_predictions", "sound_events"]]
@@ -1180,6 +1236,10 @@ def draw_run_cfg(rng, focus, tier):
         "n_nodes": rng.choice([1, 2, 3]),
         "max_ops": rng.choice([6, 10, 16] + ([28] if thorough else [])),
         "spec": spec_cfg,
+        "store_roots": ["evaluation", "evaluation", "evaluation",
+                        "annotation_project", "annotation_project"]
+        + rng.sample(["model_run", "prediction_set", "evaluation_set",
+                      "annotation_set"], rng.randint(0, 3)),
         "enabled_any": rng.sample(DOC_FAULTS_ANY, rng.randint(2, len(DOC_FAULTS_ANY))),
         "enabled_valid": rng.sample(DOC_FAULTS_VALID, rng.randint(1, len(DOC_FAULTS_VALID))),
         "weights": {
@@ -1235,7 +1295,8 @@ def gen_ops(rng, cfg, seed_tag):
 
     def store(k, p=None, fault=None, root=None):
         p = rng.randrange(len(FILES)) if p is None else p
-        root = root or rng.choice(["evaluation", "evaluation", "annotation_project"])
+        root = root or rng.choice(cfg.get("store_roots") or
+                                  ["evaluation", "evaluation", "annotation_project"])
         ops.append({"op": "store", "k": k, "root": root, "path": p,
                     "node": node(), "fault": fault})
         return p
@@ -1357,7 +1418,8 @@ ASSUMPTIONS = [
     "completeness is claimed only for stored documents that are closed under "
     "reference and satisfy every invariant",
 ]
-SEAM_PROBES = {"C04": ["store:interrupted-by-fault"]}
+SEAM_PROBES = {"C04": ["store:interrupted-by-fault",
+                       "C04:arrangement-reached-by-in-place-edit"]}
 CORE_PROBES = {
     "C04": [
         "C04:faulted-load-checked>=2",
